@@ -148,6 +148,10 @@ class TaskLoader:
         try:
             # pylint: disable=exec-used
             exec(include_code, {}, scope)
+        except ConductorError:
+            # E.g., an abort requested by the user (SIGINT/SIGTERM) while the
+            # included file was being evaluated. This is not a parse error.
+            raise
         except SyntaxError as ex:
             syntax_err = TaskSyntaxError()
             syntax_err.add_file_context(
